@@ -404,12 +404,19 @@ pub fn run_paused<F: Future>(virtual_watchdog: Duration, f: F) -> Paused<F::Outp
         .start_paused(true)
         .build()
         .unwrap();
-    let r = rt.block_on(async move {
-        match tokio::time::timeout(virtual_watchdog, f).await {
+    let mut fut = Box::pin(f);
+    let r = rt.block_on(async {
+        match tokio::time::timeout(virtual_watchdog, fut.as_mut()).await {
             Ok(v) => Paused::Done(v),
             Err(_) => Paused::Quiescent,
         }
     });
+    // Dropping an unfinished protocol future may trip drop guards of the code under test (e.g. the DZKP
+    // validator panics when dropped with unverified multiplications): that is not a harness failure.
+    {
+        let _g = rt.enter();
+        let _ = catch(move || drop(fut));
+    }
     // tasks still parked (e.g. after quiescence) are dropped here, without waiting
     rt.shutdown_background();
     r
@@ -425,7 +432,12 @@ pub fn run_mt<F: Future>(workers: usize, wall_deadline: Duration, f: F) -> Optio
         .enable_time()
         .build()
         .unwrap();
-    let r = rt.block_on(async move { tokio::time::timeout(wall_deadline, f).await.ok() });
+    let mut fut = Box::pin(f);
+    let r = rt.block_on(async { tokio::time::timeout(wall_deadline, fut.as_mut()).await.ok() });
+    {
+        let _g = rt.enter();
+        let _ = catch(move || drop(fut));
+    }
     rt.shutdown_background();
     r
 }
